@@ -249,6 +249,28 @@ Theorem C19_created_filled :
 Proof. exact ok_created. Qed.
 Print Assumptions C19_created_filled.
 
+(* The value Pack writes itself -- time.Now().UTC().Format(time.RFC3339), modelled on the broken-down
+   UTC time (format_rfc3339_utc, compared with time.Format on every run) -- always passes Pack's own
+   validation and is RFC 3339, for every valid civil time before the year 10000 ... *)
+Theorem C19_clock_value_accepted :
+  forall y mo d h mi s, civil_ok y mo d h mi s = true -> rfc3339_ok (format_rfc3339_utc y mo d h mi s) = true.
+Proof. exact format_accepted. Qed.
+Print Assumptions C19_clock_value_accepted.
+
+(* ... so "a created timestamp filled in" needs no premise about the timestamp. *)
+Theorem C19_created_filled_by_clock :
+  forall (marshal : manifest -> str) (H : str -> str), H empty_json = empty_json_digest ->
+  forall f tc fa s at_ o y mo d h mi sec s' dd m,
+    civil_ok y mo d h mi sec = true ->
+    pack marshal H f tc fa s at_ o (format_rfc3339_utc y mo d h mi sec) = (s', Ok dd m) ->
+    (exists v, ann_get (created_key f) (m_ann m) = Some v /\ rfc3339_ok v = true /\ RFC3339 v /\
+               (ann_get (created_key f) (o_ann o) = Some v \/
+                ann_get (created_key f) (o_ann o) = None /\ v = format_rfc3339_utc y mo d h mi sec)) /\
+    (forall k, k <> created_key f -> ann_get k (m_ann m) = ann_get k (o_ann o)) /\
+    d_ann dd = m_ann m.
+Proof. exact ok_created_clock. Qed.
+Print Assumptions C19_created_filled_by_clock.
+
 (* Digest, size and media type of the returned descriptor are those of the marshalled
    manifest, and the target holds under that descriptor content with that digest; for a
    collision-free digest, exactly those bytes and that size -- also when the manifest or a
